@@ -35,5 +35,7 @@ struct OutputView {
 OutputView present_output(size_t n, unsigned char fill);
 bool output_canaries_intact(const OutputView &v);
 
+// sched engine: each task gets its own guarded regions (the harness copies into them)
+void guard_set_task(int task);
 // Run fn on a thread with an explicit stack of `stack_bytes` (+ guard page).
 void run_on_bounded_stack(size_t stack_bytes, void (*fn)(void *), void *arg);
